@@ -72,6 +72,12 @@ def instTy (fx : Fix) (reg : List (Nat × Nat)) (i : Inst) : Ty :=
   | .struct n => if fx.typeFix then ⟨.struct n, i.defn.getD 0⟩ else ⟨.struct n, (reg.lookup n).getD 0⟩
   | t => ⟨t, 0⟩
 
+/-- derefSet's test `tt == pt` on two records. After fix C17-02 both sides are the definitions the
+records carry (`definedType`): equal exactly when struct name and definition agree (an untyped
+hash never equals a struct instance). Before: `Registry[TypeName]` on both sides. -/
+def sameType (fx : Fix) (reg : List (Nat × Nat)) (a b : Inst) : Bool :=
+  if fx.typeFix then decide (a.tname = b.tname ∧ a.defn = b.defn) else instTy fx reg a == instTy fx reg b
+
 /-- The language's `Type()`; `none` = nil type. -/
 def typeOf (fx : Fix) (s : St) : Val → Option Ty
   | .nil => none
@@ -298,7 +304,7 @@ def step (fx : Fix) (k : Nat) (s : St) : Op → St × Bool
     | some id, some vs, some g =>
       match s.heap[id]?, makeHash fx s (.struct n) (some g) vs with
       | some tgt, some payload =>
-        if instTy fx s.reg tgt = instTy fx s.reg payload then
+        if sameType fx s.reg tgt payload then
           ({ s with heap := s.heap.set id payload }, true)      -- CloneFrom
         else (s, false)
       | _, _ => (s, false)
